@@ -85,7 +85,10 @@ impl<'de> Decode<'de> for Integer {
 
                 Ok(x - offset)
             }
-            _ => todo!("decode_itf8: {:?}", self),
+            _ => Err(io::Error::new(
+                io::ErrorKind::InvalidData,
+                format!("unsupported integer encoding: {self:?}"),
+            )),
         }
     }
 }
